@@ -98,7 +98,7 @@ _stream = st.builds(
     },
     _proxy,
     st.sampled_from(["prod", "prod_h", "exch", "exch_h"]),
-    st.sampled_from(["ok"] * 10 + ["raise", "raise", "nonstream", "nohdr"]),
+    st.sampled_from(["ok"] * 10 + ["raise", "raise", "nonstream", "nohdr", "xhdr", "xhdr"]),
     st.integers(0, 2),
     st.text(alphabet="eeeEfrn", min_size=1, max_size=4),
     st.integers(0, 2),
@@ -401,7 +401,10 @@ def _reject_class(op: dict[str, Any]) -> str:
     init = op["init"]
     if init == "nohdr" and not op["m"].endswith("_h"):
         init = "ok"
-    return {"ok": "ok", "raise": "init_raises", "nonstream": "returns_non_stream", "nohdr": "header_none"}[init]
+    if init == "xhdr":
+        init = "ok" if op["m"].endswith("_h") else "undeclared_header"
+    return {"ok": "ok", "raise": "init_raises", "nonstream": "returns_non_stream", "nohdr": "header_none",
+            "undeclared_header": "undeclared_header"}[init]
 
 
 def _shape(op: dict[str, Any], obs: list[Any], raised_phase: str | None) -> str:
